@@ -8,6 +8,8 @@
 package websocket
 
 import (
+	"net"
+	"bufio"
 	"io"
 	"sync"
 	"time"
@@ -509,8 +511,11 @@ func ens_flushFrame_balanced(w *messageWriter) bool { return !prim_chanheld(w.c.
 //@ assigns (*messageWriter).flushFrame ghost.wr(w), w.pos, w.frameType, w.compress, w.err, w.c.writeBuf[*], w.c.isWriting, w.c.writer, w.c.writeErr, w.c.writeErrMu, ghost.lock(w.c.mu), ghost.wr(w.c.conn), ghost.ioerr
 
 // the reader side of a connection as newConnBRW builds it
+func ghost_rd_bufsize(r io.Reader) int { panic("ghost") } // size of a bufio.Reader's buffer
+
 func spec_wfReader(c *Conn) bool {
-	return spec_wfWriterLock(c) && c.br != nil && c.readRemaining >= 0 && c.readLength >= 0 && c.handlePing != nil && c.handlePong != nil && c.handleClose != nil &&
+	// (the read buffer holds the largest control frame payload: the frame reader takes such a payload in one Peek)
+	return spec_wfWriterLock(c) && c.br != nil && ghost_rd_bufsize(c.br) >= maxControlFramePayloadSize && c.readRemaining >= 0 && c.readLength >= 0 && c.handlePing != nil && c.handlePong != nil && c.handleClose != nil &&
 		(c.readLimit <= 0 || c.readLength <= c.readLimit) // maintained by NextReader (reset) and advanceFrame (this check)
 }
 
@@ -865,3 +870,23 @@ func ens_ConnWriteMessage(c *Conn, messageType int, data []byte, ret0 error) boo
 }
 
 //@ assigns (*Conn).WriteMessage c.writeBuf[*], c.isWriting, c.writer, c.writeErr, c.writeErrMu, ghost.lock(c.mu), ghost.wr(c.conn), ghost.ioerr
+
+// ---------- C14: a new connection's read buffer holds the largest control frame payload ----------
+// (connections set up without a caller-supplied bufio.ReadWriter)
+//@ requires newConnBRW
+func req_newConnBRW(conn net.Conn, brw *bufio.ReadWriter, readBufferSize, writeBufferSize int) bool {
+	return conn != nil && brw == nil && readBufferSize >= 0 && readBufferSize <= 1<<30 && writeBufferSize >= 0 && writeBufferSize <= 1<<30
+}
+
+// the handler setters store closures over the connection (outside the subset): assumed to set their own field only
+//@ trusted (*Conn).SetCloseHandler
+//@ assigns (*Conn).SetCloseHandler c.handleClose
+//@ trusted (*Conn).SetPingHandler
+//@ assigns (*Conn).SetPingHandler c.handlePing
+//@ trusted (*Conn).SetPongHandler
+//@ assigns (*Conn).SetPongHandler c.handlePong
+
+//@ ensures newConnBRW C14.newconn.read-buffer
+func ens_newConnBRW(ret0 *Conn) bool {
+	return ret0 != nil && ret0.br != nil && ghost_rd_bufsize(ret0.br) >= maxControlFramePayloadSize
+}
